@@ -308,6 +308,56 @@ def run(ctx: Ctx) -> None:
                                    "kept_targets": [str(t) for t in tg_]})
             exercise(graph, key)
 
+    # ---- which nodes "produce float tensors" is a fact about the tensors (any floating dtype: float64 segments of a
+    #      float32 model, a model converted with .double(), bfloat16), decided here from the dtypes an eager run produces
+    from unit_scaling.transforms import prune_non_float_tensors as _pnf
+
+    class MixedPrecision(torch.nn.Module):
+        def __init__(self) -> None:
+            super().__init__()
+            self.l = torch.nn.Linear(4, 4)
+
+        def forward(self, x):  # type: ignore[no-untyped-def]
+            h = self.l(x)
+            d = h.double()                      # a float64 segment inside the model
+            e = torch.tanh(d) * 2.0
+            idx = e.argmax(-1)                  # the only non-float value
+            f = e.to(h.dtype)
+            return f + h, idx
+
+    for dt_ in (torch.float32, torch.float64, torch.bfloat16):
+        for path_ in ("dynamo", "direct"):
+            key = {"path": path_, "module": "float64 segment (double -> tanh -> mul -> cast back), argmax", "dtype": str(dt_),
+                   "backward": False}
+            ctx.count(key, bucket=f"{path_}/dtypes")
+            graph = None
+            torch.manual_seed(60)
+            net_ = MixedPrecision().to(dt_)
+            x_ = torch.randn(5, 4).to(dt_)
+            with ctx.guard("C19:track", key):
+                if path_ == "dynamo":
+                    tm = track_scales(net_)
+                    tm(x_.clone())
+                    graph = tm.scales_graph()
+                else:
+                    from unit_scaling.transforms._track_scales import ScaleTrackingBackend as _STB2
+                    be_ = _STB2()
+                    be_(torch.fx.symbolic_trace(net_), [])(x_.clone())
+                    graph = be_.graph
+            if graph is None:
+                continue
+            pruned = None
+            with ctx.guard("C19:non-float:dtypes", key):
+                pruned = _pnf(graph)
+            if pruned is not None:
+                tg_ = [str(n.target) for n in pruned.nodes]
+                missing_ = [w_ for w_ in ("double", "tanh", "mul", "add") if not any(w_ in t_ for t_ in tg_)]
+                if missing_ or any("argmax" in t_ for t_ in tg_):
+                    ctx.violation("C19:non-float:true-dtypes", "non-float pruning decided against the dtypes of the tensors that "
+                                  "flowed: float-producing nodes removed " + str(missing_) + (", argmax kept" if any("argmax" in t_ for t_ in tg_) else ""),
+                                  key, {"kept_targets": tg_})
+            exercise(graph, key)
+
     if ctx.driver_ok and reqs:
         for (key, got, ids), r in zip(cases, driver.ask(reqs, timeout=1200)):
             if r.get("ids") != ids or r.get("nodes") != got:
